@@ -32,6 +32,9 @@ type c06Params struct {
 	// Faulty adds a file that passes the permission check and then fails while being read: "emptygz" = a zero-byte
 	// .gz, "badgz" = a .gz that is not gzip data, "cutgz" = a .gz cut inside its header.  It contributes no line.
 	Faulty string
+	// Keys: number of distinct group keys (default 2); more groups than the server's message queue holds (10) make the
+	// final partial result a burst of messages
+	Keys int
 }
 
 func (p c06Params) String() string {
@@ -39,17 +42,26 @@ func (p c06Params) String() string {
 	if p.Faulty != "" {
 		s += " +unreadable:" + p.Faulty
 	}
+	if p.Keys > 0 {
+		s += fmt.Sprintf(" keys=%d", p.Keys)
+	}
 	return s
 }
 
 func c06Setup(p c06Params) (what string, perKey map[string][2]float64) {
 	dir := strings.NewReplacer(" ", "_", "[", "", "]", "").Replace(fmt.Sprintf("c06/%v", p.Files))
+	if p.Keys > 0 {
+		dir += fmt.Sprintf("-keys%d", p.Keys)
+	}
 	perKey = map[string][2]float64{}
 	var paths []string
 	for f, n := range p.Files {
 		var sb strings.Builder
 		for l := 1; l <= n; l++ {
 			k := []string{"a", "b"}[(f+l)%2]
+			if p.Keys > 0 {
+				k = fmt.Sprintf("k%03d", (f*7+l)%p.Keys)
+			}
 			v := float64(f*10 + l)
 			sb.WriteString(fmt.Sprintf("k=%s|v=%v\n", k, v))
 			e := perKey[k]
@@ -258,6 +270,8 @@ func c06ParamSets(tier string) (ps []c06Params, d int) {
 			{Servers: 1, Files: []int{1, 2}, CatLimit: 2},
 			{Servers: 2, Files: []int{1}, CatLimit: 2, Policy: 2},
 			{Servers: 1, Files: []int{2}, CatLimit: 2, Faulty: "emptygz"},
+			{Servers: 2, Files: []int{35}, CatLimit: 2, Keys: 30},
+			{Servers: 1, Files: []int{20, 20}, CatLimit: 1, Glob: true, Keys: 25, Interval: 1, ReadDelayMs: 300},
 			{Servers: 1, Files: []int{1, 1}, CatLimit: 1, Glob: true, Faulty: "badgz"},
 			{Servers: 1, Files: []int{1}, CatLimit: 2, Faulty: "cutgz"},
 			{Servers: 1, Files: []int{2}, CatLimit: 2, Interval: 1, ReadDelayMs: 500, D: 2, Long: true},
@@ -290,7 +304,7 @@ func init() {
 		ID:    "C06",
 		Level: "model_checking",
 		Rule: "stateless exploration of all schedules within a deviation bound (quick 1, thorough 2) of a complete dmap run: the real MaprClient (cumulative, outfile), one in-process server per entry of the server list (Serverless connector, " +
-			"ServerHandler, map command, read commands behind the cat limiter, server Aggregate), the per-server client MaprHandlers, the GlobalGroupSet and the periodic reporter; 1-3 servers x 1-3 files x 0-2 lines, cat limit 1-2, one glob or one command per file; " +
+			"ServerHandler, map command, read commands behind the cat limiter, server Aggregate), the per-server client MaprHandlers, the GlobalGroupSet and the periodic reporter; 1-3 servers x 1-3 files x 0-2 lines (and files of 20-35 lines over 25-30 group keys: more groups than the server's message queue holds), cat limit 1-2, one glob or one command per file; " +
 			"oracle: final count and sum per key == totals over all files of all servers, exit status 0, termination before the horizon; plus the client side alone (two servers' handlers, periodic reporter, final report) under all schedules within 2 deviations: every partial result counted exactly once in the final result; distinct = distinct (scenario, result) pairs",
 		Assumptions: []string{
 			"code between two synchronisation operations is atomic (data-race freedom; checked by the free-running -race pass)",
